@@ -62,9 +62,9 @@ behaviour of the datum callees, every assignment of datum objects to SRs (`dmap`
 initial SR heap and datum heap, every pool of transformers and every history of calls on the machine
 `runHistS` that threads the datum heap through `datumTransform`: the datum heap ends exactly as it began,
 and the i-th answer is the answer of a single call of that transformer on the initial heaps (a freshly built
-transformer).  A panic of a datum callee is carried as the failure value `conv (.panic f)` of the call. -/
+transformer).  A panic of a datum callee is a panic of the call (`Res.panic`, `C10_datum_panic_is_panic`). -/
 theorem C10_pure_with_datums (c : Core F P Err) (hc : CoreOK c) (o : DOps F R Err0) (dmap : Nat → Nat)
-    (conv : Fail Err0 → Err) (wgs : Nat) (h0 : Heap F P) (hD : DHeap F R) (pool : Nat → Tr)
+    (conv : Err0 → Err) (wgs : Nat) (h0 : Heap F P) (hD : DHeap F R) (pool : Nat → Tr)
     (hist : List (Nat × F × F)) :
     (runHistS c (datumStep o dmap conv) wgs { heap := h0, pool := pool } hD hist).2.1 = hD ∧
     Spec.HistoryIndependent (runHistS c (datumStep o dmap conv) wgs { heap := h0, pool := pool } hD hist).2.2
@@ -78,9 +78,29 @@ theorem C10_pure_with_datums (c : Core F P Err) (hc : CoreOK c) (o : DOps F R Er
 
 /-- **C10_step_datums_frame**: one call of a transformer leaves the datum heap exactly as it found it. -/
 theorem C10_step_datums_frame (c : Core F P Err) (o : DOps F R Err0) (dmap : Nat → Nat)
-    (conv : Fail Err0 → Err) (wgs : Nat) (h : Heap F P) (hD : DHeap F R) (tr : Tr) (x y : F) :
+    (conv : Err0 → Err) (wgs : Nat) (h : Heap F P) (hD : DHeap F R) (tr : Tr) (x y : F) :
     (stepS c (datumStep o dmap conv) wgs h hD tr x y).2.1 = hD := by
   rw [stepS_eq c _ (datumStep_frame (Err := Err) o dmap conv)]
+
+/-- **C10_datum_panic_is_panic** ("never panics" is not hidden by the model): when a callee of
+`datumTransform` panics, the datum step of the composed machine yields that PANIC (not an error value) and the
+datum heap exactly as before the call — the restore is deferred —, and `transform3`'s body turns it into a
+panic of the call (`Res3.panic`), which the closure passes on (`dropZ`). -/
+theorem C10_datum_panic_is_panic (c : Core F P Err) (o : DOps F R Err0) (dmap : Nat → Nat) (conv : Err0 → Err)
+    (hD : DHeap F R) (s d : Nat) (S D : SR F P) (x y z x1 y1 x2 y2 : F) (g : Fault)
+    (h1 : axisPart c.axisErr S.axis false x y = .ok (x1, y1))
+    (h2 : (if S.longlat then (.ok (FOps.mul x1 FOps.deg2rad, FOps.mul y1 FOps.deg2rad) : Except Err (F × F))
+           else c.inv S.p (FOps.mul x1 S.toMeter) (FOps.mul y1 S.toMeter)) = .ok (x2, y2))
+    (h3 : (datumTransformM o hD (dmap s) (dmap d)
+            (if FOps.isNaN S.fromGreenwich then x2 else FOps.add x2 S.fromGreenwich, y2, z)).2 = .error (.panic g)) :
+    bodyS c (datumStep o dmap conv) hD s d S D x y z = (hD, .panic g) := by
+  unfold bodyS
+  simp only [h1, h2]
+  have hh : datumStep (Err := Err) o dmap conv hD s d
+      (if FOps.isNaN S.fromGreenwich then x2 else FOps.add x2 S.fromGreenwich) y2 z = (hD, .error (.panic g)) := by
+    unfold datumStep
+    simp only [datumTransformM_heap, h3]
+  simp only [hh, failToRes]
 
 end Composed
 
@@ -129,10 +149,23 @@ example :
 written the WGS84 constants into it) — both calls give the same failure and the datum heap is as before -/
 example :
     (runHistS Witness.core (datumStep ops (fun i => if i = 0 then 0 else 1)
-        (fun f => match f with | .err e => e | .panic _ => "panic")) 2
+        id) 2
       { heap := Witness.heap, pool := Witness.pool } heap [(0, 5, 7), (0, 5, 7)]).2.2 =
       [.err "gridshift not supported", .err "gridshift not supported"] := by
   rfl
+
+/-- non-vacuity of `C10_datum_panic_is_panic`: a callee that panics (`geodetic_to_geocentric` indexing past
+`datum_params`, say) between a WGS84-type and a 3-parameter datum: the call of the composed machine answers
+`panic`, twice, and the datum heap is as before -/
+def opsPanic : DOps Int Unit String := { ops with geodeticToGeocentric := fun _ _ => .error (.panic .index) }
+def heapP : DHeap Int Unit := fun i => if i = 0 then ⟨4, 10, 20, ()⟩ else ⟨1, 30, 40, ()⟩
+example :
+    (runHistS Witness.core (datumStep opsPanic (fun i => if i = 0 then 0 else 1) id) 2
+      { heap := Witness.heap, pool := Witness.pool } heapP [(0, 5, 7), (0, 5, 7)]).2.2 =
+      [.panic .index, .panic .index] ∧
+    (runHistS Witness.core (datumStep opsPanic (fun i => if i = 0 then 0 else 1) id) 2
+      { heap := Witness.heap, pool := Witness.pool } heapP [(0, 5, 7), (0, 5, 7)]).2.1 1 = heapP 1 := by
+  exact ⟨rfl, rfl⟩
 
 end DatumWitness
 end GeomV.C10
